@@ -529,6 +529,7 @@ public:
         .set("tier", opt_.tier).set("run_index", f.index).set("expected_class", cls)
         .set("signature", sig).set("detail", om.detail).set("shrink_attempts", attempts)
         .set("original_size", prop_.planSize(plan)).set("minimised_size", prop_.planSize(minPlan))
+        .set("build_variant", getenv("VERIF_VARIANT") ? getenv("VERIF_VARIANT") : "default")
         .set("plan", prop_.toJson(minPlan));
         {
           // event log of the minimised run, produced in an isolated child
@@ -629,7 +630,7 @@ public:
     if (desc.has("components")) {cov.set("components", desc["components"]);}
     if (desc.has("oracles")) {cov.set("oracles", desc["oracles"]);}
     cov.set("worker_crashes", crashes).set("worker_hangs", hangs);
-    if (!opt_.note.empty()) {cov.set("sanitizer_slice", opt_.note);}
+    if (!opt_.note.empty()) {cov.set("other_build_configurations", opt_.note);}
     cov.set("violations_reported", reported);
     cov.set("known_findings_seen", nKnown);
     Json ev = Json::object();
